@@ -134,7 +134,9 @@ def sweep(blocks, eval_block, acc: Acc = None, workers=None, label=""):
             acc.merge(res)
         return acc
     ctx = mp.get_context("fork")
-    with ctx.Pool(workers) as pool:
+    # one task per worker process: every block starts from the parent's (pristine) module state, so a
+    # block's verdict never depends on which blocks the same worker happened to run before
+    with ctx.Pool(workers, maxtasksperchild=1) as pool:
         for st, blk, res in pool.imap_unordered(
             _worker, [blocks[i] for i in order], chunksize=1
         ):
